@@ -1,5 +1,7 @@
 // rt.cpp - runtime services shared by all harness binaries: Ctx methods, sanitizer report
 // hooks, crash / CPU-time guard, small helpers.
+#include <dirent.h>
+#include <unistd.h>
 #include "vf.hpp"
 #include <csetjmp>
 #include <csignal>
@@ -103,6 +105,22 @@ void Ctx::fail(uint32_t cls, const char *sig, const char *fmt, ...) {
     if (noteonly & cls) { tags[std::string("noted_") + cls_name(cls)]++; return; }
     va_list ap; va_start(ap, fmt);
     failv(cls, sig, fmt, ap);
+}
+
+// open file descriptors of the process, not counting the ones the harness and the sanitizer runtime
+// open lazily themselves (/dev/null for debug output, the sanitizer log, pipes, the terminal)
+int count_open_fds(std::string *what) {
+    int n = 0; DIR *d = opendir("/proc/self/fd"); if (!d) return -1;
+    int self = dirfd(d);
+    while (struct dirent *e = readdir(d)) {
+        if (e->d_name[0] == '.') continue;
+        if (atoi(e->d_name) == self) continue;
+        char path[64], tgt[512]; snprintf(path, sizeof path, "/proc/self/fd/%s", e->d_name);
+        ssize_t k = readlink(path, tgt, sizeof tgt - 1); if (k < 0) continue; tgt[k] = 0;
+        if (!strncmp(tgt, "/dev/null", 9) || strstr(tgt, "/san.") || strstr(tgt, "/san-") || !strncmp(tgt, "pipe:", 5) || !strncmp(tgt, "/dev/pts", 8) || !strncmp(tgt, "/proc/", 6)) continue;
+        n++; if (what) { *what += tgt; *what += " "; }
+    }
+    closedir(d); return n;
 }
 
 // reports that were raised but never polled (the case crashed or was abandoned first) belong to
